@@ -285,6 +285,24 @@ def long_name_cases():
     return base + out
 
 
+class Undecoded(BaseException):
+    pass
+
+
+def parse_fully(data):
+    """parseMessage either rejects the bytes or returns a message that IS decoded: reading its body and header fields afterwards
+    (what the handlers it is delivered to will do) cannot fail any more"""
+    from txdbus import message
+    m = message.parseMessage(data, [])
+    try:
+        _ = (m.body, m.signature, m.serial, getattr(m, 'member', None), getattr(m, 'path', None))
+        if m.signature and m.body is None:
+            raise ValueError('a message with the signature %r has no decoded body' % (m.signature,))
+    except Exception as e:
+        raise Undecoded('%s: %s' % (type(e).__name__, e))
+    return m
+
+
 def valid_messages(rnd):
     from txdbus import message
     out = []
@@ -310,6 +328,8 @@ class CountingBytes(bytes):
         r = bytes.__getitem__(self, k)
         if isinstance(k, slice):
             CountingBytes.copied += len(r)
+            if len(r) > 64:
+                return CountingBytes(r)          # large pieces keep counting (a piece sliced again and again)
         return r
 
 
@@ -321,7 +341,9 @@ def copy_cases():
     n = 3000
     cases = [('as', W.encode('as', [['abc'] * n], 0, True)), ('ao', W.encode('ao', [['/a/b'] * n], 0, True)),
              ('a{sv}', W.encode('a{sv}', [{'k%d' % i: W.Variant('s', 'vv') for i in range(n)}], 0, True)),
-             ('a(so)', W.encode('a(so)', [[['x', '/p']] * n], 0, True))]
+             ('a(so)', W.encode('a(so)', [[['x', '/p']] * n], 0, True)),
+             ('aau', W.encode('aau', [[[1, 2]] * n], 0, True)), ('a{sas}', W.encode('a{sas}', [{'k%d' % i: ['a', 'b'] for i in range(n)}], 0, True)),
+             ('aay', W.encode('aay', [[[1, 2, 3]] * n], 0, True)), ('a(ai)', W.encode('a(ai)', [[[[7]]] * n], 0, True))]
     for sig, data in cases:
         CountingBytes.copied = 0
         try:
@@ -549,7 +571,10 @@ def bounded_(tier, seed):
     for data in long_name_cases():
         n += 1
         limit = budget_for(len(data), 255)
-        st, out = steps_of(lambda: message.parseMessage(data, []), limit)
+        try:
+            st, out = steps_of(lambda: parse_fully(data), limit)
+        except Undecoded as e:
+            return n, 'parseMessage(%d bytes) returned a message that is not decoded: reading it afterwards fails with %s' % (len(data), e), {'raw': data.hex()}
         if out in ('BUDGET', 'MemoryError'):
             return fail('parseMessage(%d bytes naming long paths / names, one character replaced)' % len(data), {'raw': data.hex()}, st, 'no result within %d s' % WALL_S if st < 0 else out, limit)
     for raw in msgs:
@@ -563,7 +588,10 @@ def bounded_(tier, seed):
         for data in cases:
             n += 1
             limit = budget_for(len(data), 255)
-            st, out = steps_of(lambda: message.parseMessage(data, []), limit)
+            try:
+                st, out = steps_of(lambda: parse_fully(data), limit)
+            except Undecoded as e:
+                return n, 'parseMessage(%d bytes) returned a message that is not decoded: reading it afterwards fails with %s' % (len(data), e), {'raw': data.hex()}
             if out in ('BUDGET', 'MemoryError'):
                 return fail('parseMessage(%d bytes)' % len(data), {'raw': data.hex()}, st, out, limit)
     return n, None, None
